@@ -458,6 +458,33 @@ fn run(c: &Case) -> CaseResult {
     if text3 != text {
         return Err(Fail::new("load-persist-not-identity", "Blueprint::load followed by persist changes the bytes"));
     }
+    // persisting over a file that holds something else (an older blueprint): whatever the old content, of
+    // the same length or not, the file must end up holding exactly this blueprint
+    {
+        let bytes = text.as_bytes();
+        let h = vcommon::fnv(&text) as usize;
+        let positions = [bytes.len().saturating_sub(2), bytes.len() / 2, 1usize.min(bytes.len().saturating_sub(1)), h % bytes.len().max(1)];
+        for (vi, pos) in positions.iter().enumerate() {
+            let mut stale = bytes.to_vec();
+            if vi == 2 && h % 3 == 0 {
+                stale.truncate(stale.len() / 2);
+            } else if vi == 1 && h % 5 == 0 {
+                stale.extend_from_slice(b"\n// stale");
+            } else if !stale.is_empty() {
+                stale[*pos] = if stale[*pos] == b'x' { b'y' } else { b'x' };
+            }
+            std::fs::write(&f2, &stale).map_err(|e| Fail::new("harness:io", e.to_string()))?;
+            bp.persist(&f2).map_err(|e| Fail::new("persist-error", format!("{e:#}")))?;
+            let now = std::fs::read(&f2).map_err(|e| Fail::new("harness:io", e.to_string()))?;
+            if now != bytes {
+                return Err(Fail::new(
+                    "persist-keeps-stale-file",
+                    format!("persist() over an existing file that differs from the blueprint ({} bytes, same length: {}, first difference at byte {}) left stale content on disk", stale.len(), stale.len() == bytes.len(), stale.iter().zip(bytes).position(|(a, b)| a != b).unwrap_or(stale.len().min(bytes.len()))),
+                ));
+            }
+        }
+        info.lab("persist-over-stale-file".to_string());
+    }
     let _ = std::fs::remove_file(&f1);
     let _ = std::fs::remove_file(&f2);
     if stats.prefix_and_domain && stats.overriding {
